@@ -446,5 +446,6 @@ PROPS['C18']['nofile'] = 400
 PROPS['C02']['nofile'] = 300
 PROPS['C20']['nofile'] = 1500   # 1002 inputs held open at once in the many-members refusal cases
 MORE4 = {'C01': " Round 6: after the per-member checks a SESSION of up to 12 calls in tape-chosen order on one archive object - extraction, extraction onto a directory (refused), an index beyond the count, streams read whole, streams kept open while other calls run and continued later, over-long reads, extraction by name, lookups of absent names - each step judged on its own; sweep of all 1728 three-call sessions over {extract, extract onto a directory, stream, held stream} x 3 members followed by a pass over every member; the backslash and ' ; & $ as ordinary name characters.", 'C02': ' Round 6: the same session alphabet on reference-encoded archives (LZH and unsupported-kind members included; extraction of the latter may be refused) and the 1728 three-call sessions on a plain/LZH/plain volume.', 'C03': ' Round 6: the session alphabet on the reopened CLM (extracted WAVs judged by the strict parser) and the 1728 three-call sessions on three tracks.', 'C04': ' Round 6: in a quarter of the runs the decoder object is replaced in mid-stream (after 0..6 drain calls) by a copy or a moved-to object of itself, the original destroyed; compiled only while HuffLZ is copy/move constructible.', 'C06': ' Round 6: at every fifth edit the map is copied (copy-assigned, copy-constructed, or copied and the original destroyed); the edits continue on the copy - first at the cell touched last - and every original still alive must hold, and serialise to, what it held when it was copied.', 'C08': ' Round 6: files carrying 1..8 surplus or 1..4 missing pixel bytes, counted in the size field and present in the stream (sweep over every depth/width/height of the dims grid, one generated file in ten): refused, or accepted and lawful.', 'C09': ' Round 6: between two saves of a partial-palette picture another picture of the same height with a full different colour table, and one of another height, go through the writer - the bytes must not change; one picture case in four is preceded by another picture (same or other height) going through every step.', 'C10': ' Round 6: after every refused write the lawful structure is written again (twice) and must give the bytes it gave before; after every refused read the intact file makes the whole round trip; one valid case in four is preceded by another structure going through reader and writer.', 'C11': ' Round 6: PRT image records combining a degenerate size (0..2 in width/height) with a palette index at/after the palette count and a scan line of 0 or the rounded width (sweep and one PRT case in four); the C10 cross-field predicate is no longer asserted on accepted objects here - only the safety of every follow-up.', 'C12': " Round 6: one history in four continues from its middle on a copy of the reader (copy-constructed MemoryReader / FileSliceReader, original optionally destroyed), the copy's start read from the copy itself.", 'C15': ' Round 6: capacity runs with 1..40 refused calls (out-of-range symbols) spread over the run: exactly 65535-n updates must still be accepted.', 'C16': " Round 6: one object holding maps of different heights one after the other (assigned by move from a fresh read and by copy), first queried in the block queried last before; copies whose original's mapping entry is changed, or whose original is destroyed, before the copy's first query.", 'C17': ' Round 6: pool names sharing a prefix and then differing in a byte between the letter cases against a letter (map_1.txt, mapa.txt, MAPB.TXT, map^2.txt, map`.txt).'}
+MORE5 = {'C01': " Round 7: names with bytes >= 0x80 (UTF-8 letters, combining mark, lone 0x80/0xFF; the listing judged under any consistent byte ranking, refvol::order_consistent); payloads that look like the container's own structure (block tags with lengths, volume headers, RIFF/WAVE preambles, runs); an archive beyond 2 GiB written by the library (2^31-1 byte sparse member followed by two small ones) and read back through every accessor.", 'C02': ' Round 7: sparse reference archives beyond 2 GiB (first member 0x7FFFFF00..0x7FFFFFFF bytes, two members starting around/beyond 2^31); ExtractAllFiles judged member by member; high-byte names as in C01.', 'C03': " Round 7: stems extended by punctuation on either side of '.' (a, a-b, 'a b', a_b, a!) and by bytes >= 0x80, sweep of 14 such triples (found defect 83ceaed); audio data that starts like a RIFF/WAVE file, carries chunk headers or the clump header, or IS a complete nested WAV.", 'C04': ' Round 7: ExtractAllFiles on the three-LZH-member volume (larger packed size first).', 'C05': ' Round 7: the extent rule applied to ExtractAllFiles; refusal storms (400 refused calls of each kind on one object, 800 refused opens, lawful calls in between) under a descriptor budget of 160 per harness process.', 'C06': ' Round 7: each table on its own past 64 KiB and 128 KiB of serialised bytes (3000 groups at eight alignments, 300/600 terrain types, 9000/18000 mappings, 5000/11000 sources); ReadMap through the overload taking a temporary stream for half of the inputs.', 'C08': ' Round 7: ReadIndexed / WriteIndexed through their rvalue overloads for half of the inputs.', 'C09': ' Round 7: both writer overloads of WriteCustomTileset give the same bytes and both refuse every violating picture in both scan-line orientations; ReadTileset and PeekIsCustomTileset through their rvalue overloads for half of the inputs.', 'C10': ' Round 7: image tables of 1025/2049/4097/65537/70000 records with one violating record (the last, record 1024, the middle, record 65536) refused on read and on write; kind and position of a planted violation derived from the structure when the tape is used up; ArtFile::Read through its rvalue overload for half of the inputs.', 'C11': ' Round 7: PRT tables of 65537/70000/131073 images with one foreign palette index late in the table; follow-ups extract exactly the records whose palette index is out of range.', 'C12': ' Round 7: std::u16string / std::u32string in the plain and size-prefixed typed reads.', 'C13': ' Round 7: 700 file slices alive at once, each first touched by a relative seek (descriptor budget lifted for the case); 1200 refused slice requests, 400 refused Slice(n), 400 refused opens, lawful requests in between.', 'C14': ' Round 7: every refused cell of the FileWriter open-flag matrix 300 times in a row, destinations that are directories or lie in missing directories, then the whole matrix again (descriptor budget 160).', 'C15': ' Round 7: half of the histories encoder-style (only the symbol about to be coded is asked for, one bit order per history); fifteen 20000-step encoder-style runs.', 'C17': ' Round 7: VOL and CLM archives of 65600 members: lookup, streams by index and name, resolution and containing archive through the manager on both sides of 65536.', 'C18': ' Round 7: twin names differing only in the ASCII case bit of a non-letter; volumes of 70..110 members with names of at least 12 characters (name table and index past 1 KiB).', 'C20': ' Round 7: 600..1000 members with names of 60..100 characters (tables, block headers and padding exceed 64 KiB) and a data total just below 2^32 - 64 KiB: the offsets do not fit although the data would.'}
 for _pid, _t in MORE.items():
-    PROPS[_pid]['rule'] += " Also generated (second session): " + _t + MORE3.get(_pid, '') + MORE4.get(_pid, '')
+    PROPS[_pid]['rule'] += " Also generated (second session): " + _t + MORE3.get(_pid, '') + MORE4.get(_pid, '') + MORE5.get(_pid, '')
